@@ -785,17 +785,38 @@ func containedReferrer() []vh.NodeSpec {
 		{Kind: "manifest", Art: "application/vnd.verif.att", Edges: []vh.Edge{e("subject", 3), e("config", 1)}}}
 }
 
+// foreignLayers is a crafted universe: an image with an ordinary and a non-distributable layer (stored like any blob)
+// and a signature referring to it. The non-distributable layer is a node of the graph like the other: GC keeps it while
+// the image is reachable, and auto-GC removes it with the image.
+func foreignLayers() []vh.NodeSpec {
+	e := func(role string, to int) vh.Edge { return vh.Edge{Role: role, To: to} }
+	return []vh.NodeSpec{{}, {Kind: "blob", Edges: []vh.Edge{}}, {Kind: "blob", Edges: []vh.Edge{}}, {Kind: "foreign", Edges: []vh.Edge{}},
+		{Kind: "manifest", Edges: []vh.Edge{e("config", 1), e("layer", 2), e("layer", 3)}},
+		{Kind: "manifest", Art: "application/vnd.verif.sig", Edges: []vh.Edge{e("subject", 4), e("config", 1)}}}
+}
+
+// containerWithSubject is a crafted universe: two images X and M, a signature R referring to M, and an index I that is
+// attached to X (its subject) and lists R. Deleting M must keep R: a surviving node still contains it, although that
+// container has a subject of its own.
+func containerWithSubject() []vh.NodeSpec {
+	e := func(role string, to int) vh.Edge { return vh.Edge{Role: role, To: to} }
+	return []vh.NodeSpec{{}, {Kind: "blob", Edges: []vh.Edge{}},
+		{Kind: "manifest", Edges: []vh.Edge{e("config", 1)}},                                                      // 2 X
+		{Kind: "manifest", Ann: map[string]string{"which": "m"}, Edges: []vh.Edge{e("config", 1)}},                // 3 M
+		{Kind: "manifest", Art: "application/vnd.verif.sig", Edges: []vh.Edge{e("subject", 3), e("config", 1)}},   // 4 R
+		{Kind: "index", Art: "application/vnd.verif.bundle", Edges: []vh.Edge{e("subject", 2), e("manifest", 4)}}} // 5 I
+}
+
 func genScenario(rng *rand.Rand, kind string) Scenario {
 	n := 3 + rng.Intn(3)
 	succ := vh.RandomSucc(n, rng, 30+rng.Intn(30))
 	nodes := vh.ShapeFromSucc(succ, rng, vh.ShapeOpts{Subjects: true, Artifact: true, Docker: kind != "oci" || rng.Intn(3) == 0, Dup: true,
 		Alias: kind == "memory", Foreign: kind == "oci" && rng.Intn(3) == 0}) // (non-distributable layers are stored like any blob)
-	chain := kind == "oci" && rng.Intn(4) == 0
+	chain := kind == "oci" && rng.Intn(3) == 0
+	universe := -1
 	if chain {
-		nodes = referrerChain()
-		if rng.Intn(2) == 0 {
-			nodes = containedReferrer()
-		}
+		universe = rng.Intn(4)
+		nodes = [][]vh.NodeSpec{referrerChain(), containedReferrer(), foreignLayers(), containerWithSubject()}[universe]
 		n = len(nodes) - 1
 	}
 	sc := Scenario{Kind: kind, Nodes: nodes, AutoGC: rng.Intn(2) == 0, AutoSave: rng.Intn(4) != 0, Reopen: "end"}
@@ -843,7 +864,27 @@ func genScenario(rng *rand.Rand, kind string) Scenario {
 			sc.Ops = append(sc.Ops, Op{Op: "push", N: p + 1, Pre: rng.Intn(3) == 0})
 		}
 	}
-	if chain {
+	if universe == 3 && rng.Intn(2) == 0 {
+		// the situation the universe was made for: everything stored, the container (or nothing) tagged, the signed image
+		// deleted with automatic garbage collection - the signature must stay, the container still lists it
+		sc.AutoGC = true
+		sc.Ops = nil
+		for _, p := range perm {
+			sc.Ops = append(sc.Ops, Op{Op: "push", N: p + 1})
+		}
+		if rng.Intn(3) != 0 {
+			sc.Ops = append(sc.Ops, Op{Op: "tag", N: 5, Ref: ref()})
+		}
+		sc.Ops = append(sc.Ops, Op{Op: "delete", N: 3})
+	} else if universe == 2 && rng.Intn(2) == 0 {
+		// an image with a non-distributable layer: tagged, garbage collected, then deleted with automatic collection
+		sc.AutoGC = true
+		sc.Ops = nil
+		for _, p := range perm {
+			sc.Ops = append(sc.Ops, Op{Op: "push", N: p + 1})
+		}
+		sc.Ops = append(sc.Ops, Op{Op: "tag", N: 4, Ref: ref()}, Op{Op: "gc"}, Op{Op: "delete", N: 4})
+	} else if chain {
 		// tag referrers in the middle of the chain, sometimes the image as well
 		for k := 2; k <= n; k++ {
 			if rng.Intn(3) == 0 {
